@@ -292,7 +292,7 @@ class DULServiceProvider(threading.Thread):
             pdu_type, event = PDU_TYPES[six.indexbytes(raw_pdu, 0)]
             self.primitive = pdu_type.decode(raw_pdu)
             self.event.append(event)
-        except KeyError:
+        except Exception:  # unknown PDU type or PDU that cannot be decoded
             self.event.append(fsm.Events.EVT_19)
         return True
 
